@@ -99,8 +99,11 @@ pub fn universe_mat_lifted(sc: &uni::Scratch, tier: Tier, lift: usize) -> Tree {
 			}
 		}
 		assert!(mature_last > 0 && mature_first > 0, "universe: the two-coinbase probes must contain both input orders ({} / {})", mature_last, mature_first);
-		// and two mature ones together (reference-valid sibling of m7)
-		tb.add("v:cb1+cb4-at-7", Some(m6), &BlockSpec::with(119, vec![uni::spend_coinbases(&kc, &[(1, REWARD), (4, REWARD)], &[(249, 2 * REWARD - M)], 89)]));
+		// and two mature ones together (reference-valid sibling of m7; quick only: one more valid block doubles the
+		// histories of the full universes, whose thorough run then no longer finishes in 25 minutes)
+		if !full {
+			tb.add("v:cb1+cb4-at-7", Some(m6), &BlockSpec::with(119, vec![uni::spend_coinbases(&kc, &[(1, REWARD), (4, REWARD)], &[(249, 2 * REWARD - M)], 89)]));
+		}
 	}
 	// ---- at / above thresholds as alternatives (reference-valid siblings)
 	if full {
